@@ -654,11 +654,31 @@ func cmdLitsStr(args []string) {
 
 // ---------------- C17 ----------------
 
-func observeTag(agg *sigAgg, m map[string]string) {
+func observeTag(agg *sigAgg, m map[string]string) { observeTagShared(agg, m, false) }
+
+// shared: the caller's map object tags a second field as well, and that field gets a further Tag call with another map
+// (field A was given m: its literal must say what m said when Tag(m) was called, whatever happens to other fields)
+func observeTagShared(agg *sigAgg, given map[string]string, shared bool) {
+	var m map[string]string // what was given, kept apart from the object handed to the library
+	if given != nil {
+		m = map[string]string{}
+		for k, v := range given {
+			m[k] = v
+		}
+	}
 	r := safely(func() ([]byte, error) {
 		f := jen.NewFile("main")
 		f.NoFormat = true
-		f.Type().Id("T").Struct(jen.Id("A").Int().Tag(m), jen.Id("B").Int())
+		fields := []jen.Code{jen.Id("A").Int().Tag(given), jen.Id("B").Int()}
+		if shared {
+			extra := map[string]string{"zz": "9"}
+			for k := range m {
+				extra[k] = "other" // an overlapping key with another value
+				break
+			}
+			fields = append(fields, jen.Id("D").Int().Tag(given).Tag(extra), jen.Id("E").Int().Tag(extra))
+		}
+		f.Type().Id("T").Struct(fields...)
 		var buf bytes.Buffer
 		err := f.Render(&buf)
 		return buf.Bytes(), err
@@ -749,7 +769,8 @@ func cmdLitsTag(args []string) {
 			observeTag(agg, map[string]string{"json": v})
 			observeTag(agg, map[string]string{"json": "a", "db": v, "xml": "z z"})
 			observeTag(agg, map[string]string{"json": "a", "JSON": v, "Json": "c", "jsoN": "d"}) // keys that differ only by case
-			nm += 3
+			observeTagShared(agg, map[string]string{"json": "a", "db": v}, true)
+			nm += 4
 		}
 	}
 	keyAlphabet := "abcdefghijklmnopqrstuvwxyzABCXYZ0123456789_-.,;!#$%&'()*+/<=>?@[]^`{|}~\\"
@@ -781,7 +802,7 @@ func cmdLitsTag(args []string) {
 			}
 			m[key] = string(b)
 		}
-		observeTag(agg, m)
+		observeTagShared(agg, m, i%3 == 2)
 		nm++
 	}
 	tw.Traces = nm + 2
